@@ -61,14 +61,13 @@ var knownShapes = []knownShape{
 		key:   keyD1,
 		match: func(sc *Script, m *model) bool { return len(d1Pairs(sc, m)) > 0 },
 		symptom: func(k string) bool {
-			return hasPrefixAny(k, "C08/dlq/", "C08/delivery/", "C08/ack-sequence/", "C08/unexpected-error/", "C08/missing-error/", "C08/acked-after-failed-dlq-write/")
+			return hasPrefixAny(k, "C08/dlq/", "C08/delivery/", "C08/ack-sequence/", "C08/unexpected-error/", "C08/missing-error/", "C08/acked-after-failed-dlq-write/", "C08/ack-before-confirm/")
 		},
 		neutralise: func(sc *Script, m *model) {
 			// the run is no longer rejected at that destination
 			for _, od := range d1Pairs(sc, m) {
 				o, d := od[0], od[1]
-				pre := key(d, o, "")
-				pre = pre[:len(pre)] // "d|o|"
+				pre := key(d, o, "") // "d|o|": every piece of that origin at that destination
 				for k := range sc.Nacks {
 					if strings.HasPrefix(k, pre) {
 						delete(sc.Nacks, k)
